@@ -347,6 +347,11 @@ func (e *Exec) lookupIntrinsic(name string, fv FuncV) (handler, bool) {
 	if ok && h != nil {
 		return h, true
 	}
+	if e.ob.GhostFS {
+		if h, ok := ghostIntrinsics[name]; ok {
+			return h, true
+		}
+	}
 	return nil, false
 }
 
